@@ -672,3 +672,80 @@ class VariableUniqueness(Rule):
 
 
 CONTRACTS.append(VariableUniqueness())
+
+
+# ---- 5.6.1 values of correct type, leaf positions: a literal at a NAMED (unwrapped) input type
+EnumNamesOf = MapList('enum_value_name', lambda ev: attr0(ev, 'value'))
+AllEnumDefValues = ForallList('enum_value_definition', lambda ev: z3.And(exact(ev, 'GraphQLEnumValue'), V.oref(ev) >= 0, V.is_Str(attr0(ev, 'value'))))
+ScalarLiteralOk = z3.Function('ScalarAcceptsLiteral', V, V, BoolS)        # parse_literal(node) is not UNDEFINED (builtin scalars: C10; custom ones: user code)
+InputObjectLiteralOk = z3.Function('InputObjectLiteralOk', V, V, BoolS)    # _validate_input_object reports nothing for (type, node): its own subject
+VALUE_NODES_WITH_VALUE = [c for c in T.subclasses('ValueNode') if T.resolve_attr(c, 'value') is not None and c in CONCRETE_NODES]
+
+
+class ValuesOfCorrectTypeLeaf(Contract):
+    """ValuesOfCorrectType._validate at a leaf position (declared type is a named type, the value is neither a variable nor null): a scalar accepts
+    what its parse_literal accepts; an ENUM accepts only an enum literal naming one of its values; an input object is checked field by field"""
+    key = Q + 'values_of_correct_type.py::ValuesOfCorrectType._validate'
+    property_ids = ('C07', 'C06')
+    params = ['self', 'r_argument_schema_type', 'c_argument_schema_type', 'arg', 'path', 'errors', 'schema', 'value_node', 'input_field']
+    self_class = 'ValuesOfCorrectType'
+    mutable = {'errors': 'list'}
+    comp_maps = {0: (EnumNamesOf, lambda en: [])}
+
+    def args(self, en, names):
+        self.A = super().args(en, names)
+        return self.A
+
+    def pre(self, A, st):
+        t, n, arg = A['r_argument_schema_type'], A['value_node'], A['arg']
+        return [('rule_object', z3.And(V.is_Obj(A['self']), V.oref(A['self']) >= 0)), ('path', path_ok(A['path'])),
+                ('leaf_position', z3.And(A['c_argument_schema_type'] == t, z3.Or(exact(t, 'GraphQLScalarType'), exact(t, 'GraphQLEnumType'), exact(t, 'GraphQLInputObjectType')),
+                                         V.oref(t) >= 0, V.is_Str(attr0(t, 'name')))),
+                ('enum_values', z3.Implies(exact(t, 'GraphQLEnumType'), z3.And(V.is_List(attr0(t, 'values')), AllEnumDefValues(V.items(attr0(t, 'values')))))),
+                ('a_literal', z3.And(inst(n, 'ValueNode'), ast_node(n), z3.Not(exact(n, 'VariableNode')), z3.Not(exact(n, 'NullValueNode')))),
+                ('argument', z3.And(exact(arg, 'ArgumentNode'), V.oref(arg) >= 0, named(arg))),
+                ('input_field', z3.Or(A['input_field'] == V.None_, z3.And(exact(A['input_field'], 'ObjectFieldNode'), V.oref(A['input_field']) >= 0, named(A['input_field'])))),
+                ('errors', V.is_List(st.heap[A['errors'].loc]))]
+
+    def getattr_hook(self, en, st, v, attr):
+        if attr == 'parse_literal' and z3.eq(v, self.A['r_argument_schema_type']):
+            def parse(en, s, a, kw, t=v):
+                p = fresh('parsed')
+                return [(s.assume(p != V.Undef), z3.If(ScalarLiteralOk(t, en.read(a[0], s)), p, V.Undef))]
+            return [(st, PyFunc('parse_literal', parse))]
+        if attr == '_validate_input_object' and z3.eq(v, self.A['self']):
+            def vio(en, s, a, kw):
+                errs = kw['errors']
+                cur = en.read(errs, s)
+                t, node = en.read(kw['schema_argument_definition'], s), en.read(kw['object_node'], s)
+                more = fresh('input_object_errors', VL)
+                out = []
+                ok = en.fork(s, InputObjectLiteralOk(t, node))
+                if ok is not None:
+                    out.append((ok, errs))
+                bad = en.fork(s, z3.Not(InputObjectLiteralOk(t, node)))
+                if bad is not None:
+                    out.append((en.mutate(errs, bad.assume(z3.Not(VL.is_nil(more))), V.List(app(V.items(cur), more))), errs))
+                return out
+            return [(st, PyFunc('_validate_input_object', vio))]
+        return None
+
+    def accepted(self, A):
+        t, n = A['r_argument_schema_type'], A['value_node']
+        enum_ok = z3.And(exact(n, 'EnumValueNode'), mem(EnumNamesOf(V.items(attr0(t, 'values'))), attr0(n, 'value')))
+        return z3.If(exact(t, 'GraphQLScalarType'), ScalarLiteralOk(t, n), z3.If(exact(t, 'GraphQLEnumType'), enum_ok, InputObjectLiteralOk(t, n)))
+
+    def post(self, A, st0, out):
+        t, n = A['r_argument_schema_type'], A['value_node']
+        has_value = z3.Or(*[exact(n, c) for c in VALUE_NODES_WITH_VALUE])
+        if out.kind == 'raise':
+            # a list / object literal has no `.value`: building the message for a refused scalar / enum literal crashes and the request is refused as a
+            # whole with a generic error (parse_and_validate_query, C18) -- still refused, never accepted
+            return [('crashes_only_while_refusing_a_structured_literal', z3.And(z3.Not(has_value), z3.Not(self.accepted(A)), z3.Not(exact(t, 'GraphQLInputObjectType'))))]
+        before = V.items(st0.heap[A['errors'].loc])
+        after = V.items(out.st.heap[A['errors'].loc])
+        return [('errors_only_grow', length(after) >= length(before)),
+                ('reports_iff_the_literal_is_not_of_the_type', (length(after) == length(before)) == self.accepted(A))]
+
+
+CONTRACTS.append(ValuesOfCorrectTypeLeaf())
